@@ -24,7 +24,9 @@ import Bng.Proof.DhcpTerm
     any termination INSIDE the unlock window of the client's own REQUEST (establishment is not atomic)
                              KNOWN KF-dhcp4-establish-race: NAT block, QoS policy, cache mac + circuit stay for ever, the
                              Accounting-Stop precedes the Start (KF_dhcp4_establish_race_witness, _renewal_witness);
-                             residue_free_partial: everything is proved for histories without such a race
+                             residue_free_partial: everything is proved for histories without such a race;
+                             KNOWN KF-dhcp4-stale-index-revival: what the stale index entry does to the client's next
+                             relayed REQUEST (KF_dhcp4_establish_race_aftereffect_witness)
     shutdown                 KNOWN KF-dhcp4-shutdown-residue: Server.Start only closes the socket; every live session
                              keeps all of its resources and gets no Accounting-Stop (KF_dhcp4_shutdown_witness)
 
@@ -328,7 +330,8 @@ theorem KF_dhcp4_establish_race_witness :
     lookup s'.acct 1 = some ⟨1, 1, 1⟩ ∧ 1 ∈ s'.early ∧ (lookup s'.stale (1, 1)).isSome := by
   decide
 
-/-- … and the after-effect of the index entry it leaves: the client's next relayed REQUEST under that circuit-id is
+/-- known finding KF-dhcp4-stale-index-revival: the after-effect of the index entry a raced establishment leaves (the
+    slow path trusts `leasesByCircuitID` without looking at the lease table): the client's next relayed REQUEST under that circuit-id is
     taken for a renewal of the dead lease - it gets a lease on an address the pool has on its FREE list, no pool
     binding, no new Accounting-Start, and its RELEASE sends a second Stop for the old session -/
 theorem KF_dhcp4_establish_race_aftereffect_witness :
